@@ -64,9 +64,9 @@ theorem classMap_facts :
   Txdbus.Obj.Props.classMap_facts
 
 /-- The repaired Set accepts a wire value exactly when it is a value of the declared type. -/
-theorem conforms_eq_hasType (sig : Str) (v : PyVal) (hw : wireOk v = true) :
-    conforms sig v = HasTypeSig sig v :=
-  Txdbus.Obj.Props.conforms_eq_hasType sig v hw
+theorem conforms_eq_hasType (sig : Str) (v : PVal) (hm : declarable sig = true)
+    (hw : wireOk v = true) : conforms sig v = HasTypeSig sig v :=
+  Txdbus.Obj.Props.conforms_eq_hasType sig v hm hw
 
 /-! ### the state after any history -/
 
@@ -74,21 +74,21 @@ theorem conforms_eq_hasType (sig : Str) (v : PyVal) (hw : wireOk v = true) :
 property of every instance holds the value most recently assigned to it, locally or by a successful
 remote Set - nothing else ever writes it. -/
 theorem reachable_state_refines_spec {D : Decls} {W : World} (hD : elaborate D = some W)
-    (hA : AttrConsistent W) {cfg : Cfg} (hc : cfg.Sound) {h : List Op} (hg : GoodHist h) :
+    (hA : AttrConsistent W) (hM : Modelled W) {cfg : Cfg} (hc : cfg.Sound) {h : List Op} (hg : GoodHist h) :
     Sim cfg W (Obj.Props.run cfg W h) (Obj.PropsSpec.run (sdeclOf W) h) :=
-  run_sim (elaborate_good hD) hA hc hg
+  run_sim (elaborate_good hD) hA hM hc hg
 
 /-! ### 1. Get returns the last write, typed as declared -/
 
 theorem get_returns_last_write {D : Decls} {W : World} (hD : elaborate D = some W)
-    (hA : AttrConsistent W) {cfg : Cfg} (hc : cfg.Sound) {h : List Op} (hg : GoodHist h)
+    (hA : AttrConsistent W) (hM : Modelled W) {cfg : Cfg} (hc : cfg.Sound) {h : List Op} (hg : GoodHist h)
     (o : Nat) (i p : Str) (hi : i ≠ []) (ho : (Obj.PropsSpec.run (sdeclOf W) h).attached o = true)
     {sp : SProp} (hsp : (sdeclOf W).find i p = some sp) (hr : sp.readable = true)
-    {v : PyVal} (hv : (Obj.PropsSpec.run (sdeclOf W) h).val o i p = some v)
+    {v : PVal} (hv : (Obj.PropsSpec.run (sdeclOf W) h).val o i p = some v)
     (ht : HasTypeSig sp.sig v = true) :
-    ∃ sg, step cfg W (Obj.Props.run cfg W h) (.get o i p) = (Obj.Props.run cfg W h, [.retV sg v]) ∧
+    ∃ sg, step cfg W (Obj.Props.run cfg W h) (.get o i p) = (Obj.Props.run cfg W h, [.retV sg v.plain]) ∧
       (IsBasic sp.sig = true → sg = sp.sig) := by
-  have hS := reachable_state_refines_spec hD hA hc hg
+  have hS := reachable_state_refines_spec hD hA hM hc hg
   have hall := opGet_allowed (elaborate_good hD) hA hS o p hi
   unfold GetAllowed at hall
   rw [hsp] at hall
@@ -102,7 +102,7 @@ theorem get_returns_last_write {D : Decls} {W : World} (hD : elaborate D = some 
 /-! ### 2. the access matrix -/
 
 theorem access_matrix {D : Decls} {W : World} (hD : elaborate D = some W)
-    (hA : AttrConsistent W) {cfg : Cfg} (hc : cfg.Sound) {h : List Op} (hg : GoodHist h)
+    (hA : AttrConsistent W) (hM : Modelled W) {cfg : Cfg} (hc : cfg.Sound) {h : List Op} (hg : GoodHist h)
     (o : Nat) (i p : Str) (hi : i ≠ []) (ho : (Obj.PropsSpec.run (sdeclOf W) h).attached o = true) :
     let st := Obj.Props.run cfg W h
     let s := Obj.PropsSpec.run (sdeclOf W) h
@@ -119,7 +119,7 @@ theorem access_matrix {D : Decls} {W : World} (hD : elaborate D = some W)
       (step cfg W st (.getAll o i)).1 = st) := by
   intro st s
   have hW := elaborate_good hD
-  have hS : Sim cfg W st s := reachable_state_refines_spec hD hA hc hg
+  have hS : Sim cfg W st s := reachable_state_refines_spec hD hA hM hc hg
   have hoa : o ∈ st.attached := (hS.att o).mpr ho
   refine ⟨⟨?_, step_fst_get cfg W st o i p⟩, ?_, ?_, step_fst_getAll cfg W st o i⟩
   · have : (step cfg W st (.get o i p)).2 = [opGet cfg W st o i p] := by simp [step, hoa]
@@ -127,60 +127,38 @@ theorem access_matrix {D : Decls} {W : World} (hD : elaborate D = some W)
   · intro v hw
     have : step cfg W st (.set o i p v) = opSet cfg W st o i p v := by simp [step, hoa]
     rw [this]
-    obtain ⟨a, b, c⟩ := opSet_step hW hA hc hS hoa p hi hw
+    obtain ⟨a, b, c⟩ := opSet_step hW hA hM hc hS hoa p hi hw
     exact ⟨b, c, a⟩
   · have : (step cfg W st (.getAll o i)).2 = [opGetAll cfg W st o i] := by simp [step, hoa]
     rw [this]; exact opGetAll_allowed hW hA hc hS o hi
 
 /-! ### 3. GetAll is exact, across the inheritance chain -/
 
+/-- `GetAllAllowed`: an error for an interface the object does not have; any dictionary returned has exactly
+the readable declared properties of `i` as keys (each once, over all classes of the chain, never a
+write-only one) with the right typed values (unconditionally); and a dictionary IS returned when all readable
+properties of `i` hold values of their types. -/
 theorem getall_exact {D : Decls} {W : World} (hD : elaborate D = some W)
-    (hA : AttrConsistent W) {cfg : Cfg} (hc : cfg.Sound) {h : List Op} (hg : GoodHist h)
-    (o : Nat) (i : Str) (hi : i ≠ []) (ho : (Obj.PropsSpec.run (sdeclOf W) h).attached o = true)
-    (hk : i ∈ (sdeclOf W).ifaces)
-    (hvals : ∀ sp ∈ (sdeclOf W).props, sp.iface = i → sp.readable = true →
-      ∃ v, (Obj.PropsSpec.run (sdeclOf W) h).val o i sp.name = some v ∧ HasTypeSig sp.sig v = true) :
-    ∃ l, step cfg W (Obj.Props.run cfg W h) (.getAll o i) = (Obj.Props.run cfg W h, [.retD l]) ∧
-      (l.map (·.1)).Nodup ∧
-      (∀ p, p ∈ l.map (·.1) ↔ ∃ sp, (sdeclOf W).find i p = some sp ∧ sp.readable = true) ∧
-      (∀ p sg w, (p, sg, w) ∈ l →
-        ∃ sp, (sdeclOf W).find i p = some sp ∧ (Obj.PropsSpec.run (sdeclOf W) h).val o i p = some w ∧
-          (IsBasic sp.sig = true → sg = sp.sig)) := by
-  have hS := reachable_state_refines_spec hD hA hc hg
-  have hall := opGetAll_allowed (elaborate_good hD) hA hc hS o hi
-  unfold GetAllAllowed at hall
-  rw [if_pos hk] at hall
-  obtain ⟨l, e, h1, h2, h3⟩ := hall hvals
-  have hoa : o ∈ (Obj.Props.run cfg W h).attached := (hS.att o).mpr ho
-  simp only [List.cons.injEq, and_true] at e
-  exact ⟨l, by simp [step, hoa, e], h1, h2, h3⟩
+    (hA : AttrConsistent W) (hM : Modelled W) {cfg : Cfg} (hc : cfg.Sound) {h : List Op} (hg : GoodHist h)
+    (o : Nat) (i : Str) (hi : i ≠ []) (ho : (Obj.PropsSpec.run (sdeclOf W) h).attached o = true) :
+    GetAllAllowed (sdeclOf W) (Obj.PropsSpec.run (sdeclOf W) h) o i
+      (step cfg W (Obj.Props.run cfg W h) (.getAll o i)).2 ∧
+    (step cfg W (Obj.Props.run cfg W h) (.getAll o i)).1 = Obj.Props.run cfg W h :=
+  (access_matrix hD hA hM hc hg o i [] hi ho).2.2
 
 /-! ### 4. PropertiesChanged -/
 
 /-- A local assignment through a declared attribute emits exactly one PropertiesChanged naming the
-interface, the property and the new value iff the property's mode is `true` (the instance being exported and
-the value one that can be sent); in every other case it emits no signal.  The state afterwards is the
-specification's.  (For a remote Set the same is part of `access_matrix` through `SetAllowed`.) -/
+interface, the property and the new value when the property's mode is `true` (the instance being exported and
+the value one that can be sent), nothing when the mode is anything else; never more than one signal.  (For a
+remote Set the same is part of `access_matrix` through `SetAllowed`.) -/
 theorem changed_signal {D : Decls} {W : World} (hD : elaborate D = some W)
-    (hA : AttrConsistent W) {cfg : Cfg} (hc : cfg.Sound) {h : List Op} (hg : GoodHist h)
-    (o : Nat) (a : Str) (v : PyVal) :
+    (hA : AttrConsistent W) (hM : Modelled W) {cfg : Cfg} (hc : cfg.Sound) {h : List Op} (hg : GoodHist h)
+    (o : Nat) (a : Str) (v : PVal) :
     AssignAllowed (sdeclOf W) (Obj.PropsSpec.run (sdeclOf W) h) o a v
       (step cfg W (Obj.Props.run cfg W h) (.assign o a v)).2 ∧
-    ((step cfg W (Obj.Props.run cfg W h) (.assign o a v)).2.filter isSignal).length ≤ 1 := by
-  have hS := reachable_state_refines_spec hD hA hc hg
-  have hall := (assign_step hc hS o a v).2
-  refine ⟨hall, ?_⟩
-  unfold AssignAllowed at hall
-  split at hall
-  · rw [hall]; decide
-  · split at hall
-    · obtain ⟨sg, e⟩ := hall
-      rw [e]; simp [List.filter, isSignal]
-    · have : (step cfg W (Obj.Props.run cfg W h) (.assign o a v)).2.filter isSignal = [] := by
-        rw [List.filter_eq_nil_iff]
-        intro x hx
-        simp [hall x hx]
-      rw [this]; simp
+    ((step cfg W (Obj.Props.run cfg W h) (.assign o a v)).2.filter isSignal).length ≤ 1 :=
+  ⟨(assign_step hc (reachable_state_refines_spec hD hA hM hc hg) o a v).2, assign_signal_count _ _ _ _ _ _⟩
 
 /-! ### the hypotheses are satisfiable: a two-class chain with colliding names -/
 
@@ -208,6 +186,9 @@ theorem exWorld_attrConsistent : AttrConsistent exWorld := by
 def exHist : List Op :=
   [.assign 0 "p_bc".toList (.int 1), .assign 0 "p_c".toList (.int 2), .assign 0 "p_ro".toList (.str ['x']),
    .export 0, .set 0 sA sBC (.int 7), .set 0 sA sBC (.str ['z']), .set 0 sA sRO (.str ['y'])]
+
+theorem exWorld_modelled : Modelled exWorld := by
+  unfold Modelled; decide
 
 theorem exHist_good : GoodHist exHist := by
   unfold GoodHist; decide
@@ -276,6 +257,7 @@ end Txdbus.Properties.C17
 #print axioms Txdbus.Properties.C17.changed_signal
 #print axioms Txdbus.Properties.C17.exWorld_elab
 #print axioms Txdbus.Properties.C17.exWorld_attrConsistent
+#print axioms Txdbus.Properties.C17.exWorld_modelled
 #print axioms Txdbus.Properties.C17.exHist_good
 #print axioms Txdbus.Properties.C17.original_violates_get_returns_last_write
 #print axioms Txdbus.Properties.C17.original_getall_misses_base_class
